@@ -12,17 +12,18 @@ Source modelled (quirks included):
 * `workload/graph.py` `topological_sort`, `get_longest_path` (tie breaking!)
 * `workload/profile.py` `WorkProfile.__deepcopy__` (copy numbering)
 
+Behaviour after the repairs b2eb371 / 8d52357 / d64eefe of /repo:
+* every job gets `--override_slo` if that is active, else its own `slo`, else
+  none (`-1`); nothing is carried from node to node;
+* the horizon of `populate_task_graphs` is `EventTime(flags.loop_timeout)`;
+* `override_num_invocation` replaces `invocations` for every policy that has
+  them (poisson and closed_loop still insist on the key being present; gamma
+  without the key is a `KeyError` only when there is no override).
+
 Quirks kept on purpose:
-* Q1 `load_job_graph` overwrites its `slo` parameter with the first `slo` it
-  meets, so every later node of the graph gets that SLO too.
-* Q2 `WorkloadLoader` hands `flags.loop_timeout` (an `int`) to
-  `populate_task_graphs`; the periodic policy calls `.to(..)` on it:
-  `AttributeError` (no flags: horizon `sys.maxsize`, `MemoryError`).
 * Q3 `WorkProfile.__deepcopy__` bumps the copy counter twice: the copies are
   called `P_2, P_4, …`; and `unique_work_profiles=False` (default) is the
   setting that *copies* the profiles per job graph.
-* Q4 `override_num_invocation` is ignored by poisson/gamma/closed_loop; a gamma
-  description without `invocations` is a `KeyError`, not a `ValueError`.
 * Q5 fuzz is drawn twice per task graph; only the second draw is used.
 
 Assumed of descriptions (generator guarantees; not modelled otherwise): names of
@@ -103,6 +104,8 @@ structure Flags where
   repl : Int := 1
   minDeadline : Int := 0
   maxDeadline : Int := 9223372036854775807
+  /-- `loop_timeout` in µs: the horizon of `populate_task_graphs` -/
+  loopTimeout : Int := 9223372036854775807
   deriving Repr, Inhabited
 
 /-! ## Objects -/
@@ -241,15 +244,16 @@ def createPolicy (g : GraphD) (f : Flags) : Except String Policy := do
            n := ovN.getD (g.invocations.getD 0), start := start }
   | some "poisson" =>
     if (!g.rate && !f.rate) || g.invocations.isNone then .error "ValueError" else
-    pure { kind := .poisson, n := g.invocations.getD 0, start := start }
+    pure { kind := .poisson, n := ovN.getD (g.invocations.getD 0), start := start }
   | some "gamma" =>
     if (!g.rate && !f.rate) || (!g.coefficient && !f.coef) then .error "ValueError" else
-    match g.invocations with
-    | none => .error "KeyError"
-    | some n => pure { kind := .gamma, n := n, start := start }
+    match ovN, g.invocations with
+    | some n, _ => pure { kind := .gamma, n := n, start := start }
+    | none, some n => pure { kind := .gamma, n := n, start := start }
+    | none, none => .error "KeyError"
   | some "closed_loop" =>
     match g.concurrency, g.invocations with
-    | some c, some n => mkClosedLoop c n start
+    | some c, some n => mkClosedLoop c (ovN.getD n) start
     | _, _ => .error "ValueError"
   | _ => .error "NotImplementedError"
 
@@ -286,11 +290,12 @@ def resolveProfile (origNames : List String) (pmap : List Nat) (nd : NodeD) (st 
               [{ name := s!"{nd.name}_#_work_profile", loading := [], exec := [] }] },
          st.insts.length)
 
-/-- The `slo` variable after visiting a node (Q1: it is never reset). -/
-def nextSlo (slo : Int) (nd : NodeD) : Int :=
-  if slo = -1 then (match nd.slo with | some s => s | none => slo) else slo
+/-- The SLO of the job made from a node: the override when active (`slo ≠ -1`),
+else the node's own, else none. -/
+def jobSlo (slo : Int) (nd : NodeD) : Int :=
+  if slo = -1 then (match nd.slo with | some s => s | none => -1) else slo
 
-/-- Pass 1 of `load_job_graph`: the jobs (with the leaking `slo` variable). -/
+/-- Pass 1 of `load_job_graph`: the jobs. -/
 def loadJobs (origNames : List String) (pmap : List Nat) :
     List NodeD → Int → LState → List Job → Except String (LState × List Job)
   | [], _, st, acc => .ok (st, acc)
@@ -298,8 +303,8 @@ def loadJobs (origNames : List String) (pmap : List Nat) :
     match resolveProfile origNames pmap nd st with
     | .error e => .error e
     | .ok (st1, pidx) =>
-      loadJobs origNames pmap nds (nextSlo slo nd) st1
-        (acc ++ [{ name := nd.name, profile := pidx, slo := nextSlo slo nd, cond := nd.cond,
+      loadJobs origNames pmap nds slo st1
+        (acc ++ [{ name := nd.name, profile := pidx, slo := jobSlo slo nd, cond := nd.cond,
                    term := nd.term, prob := nd.prob.getD 1000 }])
 
 /-- Pass 2: the edges. -/
@@ -479,22 +484,40 @@ def generateOne (insts : List ProfileInst) (f : Flags) (jg : JobGraph) (idx : In
   pure ({ tape := gs.tape.drop 2, nextId := gs.nextId + jg.jobs.length },
         instantiate jg s!"{jg.name}@{idx}" idx release dl gs.nextId)
 
+/-- The loop of `generate_task_graphs`: release `k` becomes task graph
+`name@(i+k)` with timestamp `i+k`. -/
+def generateList (insts : List ProfileInst) (f : Flags) (jg : JobGraph) :
+    Nat → List Int → GenState → Except String (GenState × List TaskGraph)
+  | _, [], gs => .ok (gs, [])
+  | i, r :: rs, gs =>
+    match generateOne insts f jg (Int.ofNat i) r gs with
+    | .error e => .error e
+    | .ok (g1, tg) =>
+      match generateList insts f jg (i + 1) rs g1 with
+      | .error e => .error e
+      | .ok (g2, tgs) => .ok (g2, tg :: tgs)
+
+/-- Counters after `generate_task_graphs` released `k` graphs at times `rel`. -/
+def loopAfterGenerate (pol : Policy) (rel : List Int) : LoopState :=
+  if pol.kind = .closedLoop then
+    { remaining := pol.n - rel.length, index := (rel.length : Int) - 1
+      inflight := (List.range rel.length).map (fun i => Int.ofNat i)
+      released := (List.range rel.length).map (fun i => (Int.ofNat i, rel.getD i 0)) }
+  else
+    { remaining := 9223372036854775807, index := (rel.length : Int) - 1, inflight := [], released := [] }
+
 /-- `JobGraph.generate_task_graphs(completion_time)`. -/
 def generateAll (insts : List ProfileInst) (f : Flags) (jg : JobGraph) (horizon : Option Int)
-    (d : Draws) (gs : GenState) : Except String (GenState × List TaskGraph × LoopState) := do
-  let rel ← getReleaseTimes jg.policy horizon d
-  let (gs1, tgs) ← (List.range rel.length).foldlM (fun (acc : GenState × List TaskGraph) (i : Nat) => do
-    let (g, l) := acc
-    let (g1, tg) ← generateOne insts f jg (Int.ofNat i) (rel.getD i 0) g
-    pure (g1, l ++ [tg])) (gs, [])
-  let ls : LoopState :=
-    if jg.policy.kind = .closedLoop then
-      { remaining := jg.policy.n - rel.length, index := (rel.length : Int) - 1
-        inflight := (List.range rel.length).map (fun i => Int.ofNat i)
-        released := (List.range rel.length).map (fun i => (Int.ofNat i, rel.getD i 0)) }
-    else
-      { remaining := 9223372036854775807, index := (rel.length : Int) - 1, inflight := [], released := [] }
-  pure (gs1, tgs, ls)
+    (d : Draws) (gs : GenState) : Except String (GenState × List TaskGraph × LoopState) :=
+  match getReleaseTimes jg.policy horizon d with
+  | .error e => .error e
+  | .ok rel =>
+    match generateList insts f jg 0 rel gs with
+    | .error e => .error e
+    | .ok (gs1, tgs) => .ok (gs1, tgs, loopAfterGenerate jg.policy rel)
+
+/-- The horizon `WorkloadLoader` passes: `EventTime(flags.loop_timeout, µs)`. -/
+def loaderHorizon (f : Flags) : Option Int := some f.loopTimeout
 
 /-! ## The whole workload -/
 
@@ -511,10 +534,9 @@ structure Loaded where
 def usesDraws (jg : JobGraph) : Bool :=
   (jg.policy.kind = .poisson || jg.policy.kind = .gamma) && jg.policy.n > 0
 
-/-- `WorkloadLoader(path, _flags=FLAGS)`: `horizon = none` (Q2). `draws` holds
-one entry per call of numpy (job graphs with a poisson / gamma policy and
-`n > 0`, in order). -/
-def loadWorkload (d : WorkloadD) (f : Flags) (horizon : Option Int) (tape : List Int)
+/-- `WorkloadLoader(path, _flags=FLAGS)`. `draws` holds one entry per call of
+numpy (job graphs with a poisson / gamma policy and `n > 0`, in order). -/
+def loadWorkload (d : WorkloadD) (f : Flags) (tape : List Int)
     (draws : List Draws) : Except String Loaded := do
   match d.profiles, d.graphs with
   | none, none => .error "ValueError"
@@ -534,7 +556,7 @@ def loadWorkload (d : WorkloadD) (f : Flags) (horizon : Option Int) (tape : List
         (fun (acc : GenState × List (List TaskGraph) × List LoopState × List Draws) jg => do
           let (g, t, lp, ds) := acc
           let (dr, ds1) := if usesDraws jg then (ds.headD .none, ds.drop 1) else (Draws.none, ds)
-          let (g1, t1, l1) ← generateAll st.insts f jg horizon dr g
+          let (g1, t1, l1) ← generateAll st.insts f jg (loaderHorizon f) dr g
           pure (g1, t ++ [t1], lp ++ [l1], ds1))
         ({ tape := tape, nextId := 0 }, [], [], draws)
       pure { insts := st.insts, jobGraphs := jgs, taskGraphs := tgs, loops := loops, gen := gen }
